@@ -168,8 +168,8 @@ PROPS = {
         "sub": "fw",
         "n": {"quick": 4000, "thorough": 300000},
         "coq_sample": {"quick": 20, "thorough": 200},
-        "rule": FW_RULE % "a BlockOutgoing action was returned (scenario class: 1-3 blocking machines with all replace/bypass combinations, allowed_blocked_microsec in {0,1,1000,1e6,u64::MAX}, fractions on machine and framework; single-event calls with BlockingBegin for any id, unpaired/repeated BlockingEnd; virtual-clock steps 0, tiny, huge and backwards)",
-        "assumptions": ["virtual clock; exact-rational corollary for values below 2^53 us"],
+        "rule": FW_RULE % "a BlockOutgoing action was returned (scenario class: 1-3 blocking machines with all replace/bypass combinations, allowed_blocked_microsec in {0,1,1000,1e6,u64::MAX}, fractions on machine and framework; single-event calls with BlockingBegin for any id, unpaired/repeated BlockingEnd; clock steps 0, tiny, huge and backwards; two thirds of the cases on the harness's microsecond clock, one third on the crate's std::time clock with nanosecond ticks)",
+        "assumptions": ["virtual clock: exact-rational corollary for values below 2^53 us", "std::time clock: exact share below the limit times (1 + 2^-50) for durations below 2^53 s (C03_share_std_tolerance)"],
     },
     "C04": {
         "sub": "fw",
